@@ -615,7 +615,11 @@ func runC07(c *core.Ctx) {
 						continue
 					}
 					if df.Needs == "frag" {
-						nd.Frags = append(nd.Frags, &world.Frag{Name: "FZq", Cond: "Zq7", Sels: []*world.Sel{world.F("__typename")}})
+						cond := df.Cond
+						if cond == "" {
+							cond = "Zq7"
+						}
+						nd.Frags = append(nd.Frags, &world.Frag{Name: "FZq", Cond: cond, Sels: []*world.Sel{world.F("__typename")}})
 					}
 					dtext := nd.Render(layout)
 					reject := strings.HasPrefix(df.Name, "undefined-type-condition") || strings.HasSuffix(df.Name, "-directive")
